@@ -96,11 +96,9 @@ func (p *principalInstance) doIntentRequestChecks(i Intent) error {
 		logrus.Info("principal: not connected to target")
 		checkIntentWithCert := func(cert *certs.Certificate) error {
 			p.targetCert = cert
-			err := p.checkIntent(i, cert)
-			if err != nil {
-				WriteIntentDenied(p.delegateConn, err.Error())
-			}
-			return err
+			// The caller answers the delegate exactly once, whether the target
+			// setup fails because of this check or for another reason.
+			return p.checkIntent(i, cert)
 		}
 		tc, err := p.setUpTargetConn(targURL, checkIntentWithCert)
 		if err != nil {
